@@ -3,7 +3,7 @@ import os, sys
 sys.path.insert(0, os.path.join(os.path.dirname(os.path.abspath(__file__)), '..', 'lib'))
 import vcommon as V, e2e
 
-PROPS = ['props/C09.v', 'props/Pipeline.v', 'props/C09_src.v']
+PROPS = ['props/C09.v', 'props/Pipeline.v', 'props/C09_src.v', 'props/State.v']
 ASSUMPTIONS = e2e.ASSUMPTIONS
 EXPLANATION = ("Theorems: on acceptance every inspection ran, in layout order, each in the world its predecessor left, each returning zero, after the step rules passed, and the inspection rules saw exactly the links these runs returned merged with the reduced step links; an unstartable or non-zero command rejects and stops; no inspection of a level runs unless all step checks of that level passed. Correspondence: real final-product directories and real commands.")
 
